@@ -25,27 +25,27 @@ theorem shiftXX_is_source (hapX isXX : Bool) (t : List CBin) :
   cases hX : (b.chrom == xLabel ((t.head?.map (·.chrom)).getD "")) <;> cases hapX <;> cases isXX <;>
     simp <;> norm_num
 
-theorem xLabel_ne_yLabel (first : String) : (xLabel first == yLabel first) = false := by
+theorem xLabel_ne_yLabel_sex (first : String) : (xLabel first == yLabel first) = false := by
   unfold xLabel yLabel
   split <;> decide
 
 /-- `chr_x_filter(diploid_parx_genome)`, with `parx_filter` = on X and inside PAR1X/PAR2X -/
 def xFilterSrc (first : String) (par : Option String) (b : CBin) : Bool :=
   match par with
-  | some g => src_chr_x_filter_par (b.chrom == xLabel first)
+  | some g => src_sex_chr_x_filter_par (b.chrom == xLabel first)
                 (b.chrom == xLabel first && inPar g "PAR1X" "PAR2X" b.s b.e)
-  | none => src_chr_x_filter (b.chrom == xLabel first)
+  | none => src_sex_chr_x_filter (b.chrom == xLabel first)
 
 /-- `chr_y_filter(diploid_parx_genome)`, with `pary_filter` = on Y and inside PAR1Y/PAR2Y -/
 def yFilterSrc (first : String) (par : Option String) (b : CBin) : Bool :=
   match par with
-  | some g => src_chr_y_filter_par (b.chrom == yLabel first)
+  | some g => src_sex_chr_y_filter_par (b.chrom == yLabel first)
                 (b.chrom == yLabel first && inPar g "PAR1Y" "PAR2Y" b.s b.e)
-  | none => src_chr_y_filter (b.chrom == yLabel first)
+  | none => src_sex_chr_y_filter (b.chrom == yLabel first)
 
 theorem classX_is_source (first : String) (par : Option String) (b : CBin) :
     (classOf first par b.chrom b.s b.e == .x) = xFilterSrc first par b := by
-  unfold classOf xFilterSrc src_chr_x_filter_par src_chr_x_filter
+  unfold classOf xFilterSrc src_sex_chr_x_filter_par src_sex_chr_x_filter
   cases par with
   | none =>
     cases hX : (b.chrom == xLabel first) <;> cases hY : (b.chrom == yLabel first) <;>
@@ -57,7 +57,7 @@ theorem classX_is_source (first : String) (par : Option String) (b : CBin) :
 
 theorem classY_is_source (first : String) (par : Option String) (b : CBin) :
     (classOf first par b.chrom b.s b.e == .y) = yFilterSrc first par b := by
-  unfold classOf yFilterSrc src_chr_y_filter_par src_chr_y_filter
+  unfold classOf yFilterSrc src_sex_chr_y_filter_par src_sex_chr_y_filter
   cases hX : (b.chrom == xLabel first)
   · cases par with
     | none =>
@@ -69,7 +69,7 @@ theorem classY_is_source (first : String) (par : Option String) (b : CBin) :
         simp only [hY, hQ, if_true, if_false, Bool.false_eq_true] <;> rfl
   · have hne : (b.chrom == yLabel first) = false := by
       have h1 : b.chrom = xLabel first := by simpa using hX
-      have := xLabel_ne_yLabel first
+      have := xLabel_ne_yLabel_sex first
       rw [h1]; exact this
     cases par with
     | none => simp only [hne, if_true]; rfl
